@@ -447,6 +447,22 @@ func c10Parked(c *fw.Ctx, id string, scenario string) {
 			add(w.do(3, "deref", 20*time.Second))
 			add(w.do(3, "done?", time.Second))
 			add(w.do(3, "cancelled?", time.Second))
+		case "inner-future":
+			// the body starts another future and completes; a (refused) cancel of the completed outer future must change
+			// nothing: the inner future, whose context derives from the body's, keeps running and delivers its value
+			body = "(do (trace! :start) (reset! box (future (do (sleep 15) :inner-value))) :outer-value)"
+			hx.EvalText(context.Background(), "(def box (atom nil))", w.env)
+			hx.EvalText(context.Background(), "(def f (future "+body+"))", w.env)
+			d := add(w.do(1, "deref", 20*time.Second))
+			cn := add(w.do(2, "cancel", time.Second))
+			add(w.do(2, "cancelled?", time.Second))
+			inner := hx.EvalText(context.Background(), "(try @@box (catch e (list :inner-failed (str e))))", w.env)
+			got := canon.Render(canon.FromGo(inner.Val))
+			if d.Val == ":outer-value" && cn.Val == "false" && got != ":inner-value" {
+				viol("R5:refused-cancel-changed-something", "future-cancel on the completed outer future returned false but the inner future started by its body ended with "+got)
+				return
+			}
+			add(w.do(3, "deref", 20*time.Second))
 		case "body.end":
 			// the body has finished evaluating but has published nothing yet: still "running" for observers
 			arrived, release := hooks.park("future.body.end", nil)
@@ -601,7 +617,7 @@ func runC10(c *fw.Ctx) {
 	for i := 0; i < c.PerShard(c.Pick(800, 24000)); i++ {
 		c10Random(c, r, fmt.Sprintf("fut-%d", i))
 	}
-	scen := []string{"body.mid", "body.delivered", "body.end", "cancel.mid", "deref.mid", "cancel-running-sleep", "cancel-running-gate"}
+	scen := []string{"body.mid", "body.delivered", "inner-future", "body.end", "cancel.mid", "deref.mid", "cancel-running-sleep", "cancel-running-gate"}
 	for i := 0; i < c.PerShard(c.Pick(336, 8000)); i++ {
 		c10Parked(c, fmt.Sprintf("parked-%d", i), scen[(i*c.NShards+c.Shard)%len(scen)])
 	}
